@@ -36,10 +36,11 @@ class RecordingResolver:
 
 
 def ladder_cases(full, kmax=3):
-    """(reference, query, peak list) for every indel-ladder world (mc.props.c15.ladder_worlds) and every list of 1..kmax distinct peaks
+    """(reference, query, peak list) for every indel-ladder world and every three-segment collision world (mc.props.c15.ladder_worlds,
+    collision_worlds) and every list of 1..kmax distinct peaks
     from the world's five-point grid, ascending and descending"""
     from mc.props import c15
-    for name, ref, q, grid in c15.ladder_worlds(full):
+    for name, ref, q, grid in list(c15.ladder_worlds(full)) + list(c15.collision_worlds()):
         for k in range(1, kmax + 1):
             for c in itertools.combinations(grid, k):
                 yield name, ref, q, list(c)
